@@ -842,6 +842,12 @@ HISTORIES = {
                                               ("chdir", "a"), ("load", "rel:main.xbb"), ("chdir", "b"), ("load", "rel:main.xbb"), ("chdir", "a"), ("load", "rel:main.xbb")],
     "plain_script_rewritten_same_mtime": [("write", "job.xbb", USESKEEP.replace("keepme", "5")), ("utime", "job.xbb", 1000000000), ("load", "job.xbb"),
                                           ("write", "job.xbb", "name other\nversion 1.0\n\nDgate(0.5) | 1\n"), ("utime", "job.xbb", 1000000000), ("load", "job.xbb")],
+    # a failed parse followed by scripts whose very first token is the wrong one (the generated parser could repair that in place:
+    # an error-recovery state that survives the failed parse would swallow the report)
+    "syntax_errors_then_scripts_wrong_at_first_token": [
+        ("loads", "name a\nversion 1.0\n\nVac | 0\n= Vac | 1\n"), ("loads", "prog\nversion 1.0\n\nVac | 0\n"), ("loads", "name a\nversion 1.0\n\n| 0\n"),
+        ("loads", "= name prog\nversion 1.0\n\nVac | 0\n"), ("loads", LOOPFAIL), ("loads", "version 1.0\n\nVac | 0\n"), ("loads", "name ok\nversion 1.0\n\nVac | 0\n"),
+        ("loads", "name a\nversion 1.0\n\nDgate(0.5 | 0\n"), ("loads", "Vac | 0\n"), ("loads", "name a\nversion 1.0\n\nfloat = 3\n"), ("loads", "1.0 name prog\nversion 1.0\n\nVac | 0\n")],
     "strings_then_files": [("loads", LOOPFAIL), ("write", "inc.xbb", INC_OK), ("write", "main.xbb", MAIN), ("load", "main.xbb"), ("loads", USESKEEP)],
 }
 
